@@ -33,6 +33,10 @@ PROP = {
             "over generated indexes with 1-4 segments, deletes, posting lists crossing 128-doc blocks, single/union/intersection/boolean-tree queries, 1 and 3 search threads "
             "(non-trivial = more matches than K+O or >= 2 segments); paging sweeps; (b2) every conjunction of 4-6 Must term clauses out of 8 terms of document frequency 25%..97% with "
             "heavy-tailed term frequencies over single-segment corpora of 2600-4500 documents (with and without deletes), K in {1,2,3,5}, vs the exhaustive oracle; "
+            "(b3) 260 (thorough 1200) tiny 2-4-segment indexes whose hits take 2-4 distinct scores, each at most twice per segment in 3 cases of 4 (ties on the K boundary of merge_fruits, "
+            "fruits handed over in heap order), every K <= 8, offsets 0..2 and paging sweeps, exact comparison -- a wrong tie-break outside the F15 class is a violation with its input; "
+            "(b4) single-segment corpora whose 7 terms live in their own doc-id ranges (posting lists ending at different places, frequent low-impact and rare high-impact terms), every "
+            "union of 3-5 Should term clauses, K in {1,2,3,5}, under a 20 s watchdog (non-termination is an observation); "
             "distinct by hash of the Gallina term",
     "trusted_base": COMMON_TB + ["std::slice::select_nth_unstable_by / sort_unstable_by: contracts as Section hypotheses (two concrete instances proved to meet them)",
                                  "f32 addition is not modelled: exact scores in theorems, tolerance 1e-5 relative for multi-clause sums in the end-to-end comparison"],
